@@ -37,9 +37,9 @@ func b2i(b bool) int {
 }
 
 func (s *shapeGen) atoms(allowRef bool) []*extsem.Expr {
-	out := []*extsem.Expr{{Kind: extsem.Tok, Ch: ph}}
+	out := []*extsem.Expr{{Kind: extsem.KTok, Ch: ph}}
 	if allowRef {
-		out = append(out, &extsem.Expr{Kind: extsem.Ref, NT: 1})
+		out = append(out, &extsem.Expr{Kind: extsem.KRef, NT: 1})
 	}
 	return out
 }
@@ -59,26 +59,26 @@ func (s *shapeGen) part(w, depth int, allowRef bool) []*extsem.Expr {
 		out = s.atoms(allowRef)
 	case 2:
 		for _, a := range s.atoms(allowRef) {
-			out = append(out, &extsem.Expr{Kind: extsem.Opt, Sub: a},
-				&extsem.Expr{Kind: extsem.List, Sub: a, Plus: true},
-				&extsem.Expr{Kind: extsem.List, Sub: a})
+			out = append(out, &extsem.Expr{Kind: extsem.KOpt, Sub: a},
+				&extsem.Expr{Kind: extsem.KList, Sub: a, Plus: true},
+				&extsem.Expr{Kind: extsem.KList, Sub: a})
 		}
 	case 3:
 		for _, a := range s.atoms(allowRef) {
-			out = append(out, &extsem.Expr{Kind: extsem.List, Sub: a, Sep: ph, Plus: true},
-				&extsem.Expr{Kind: extsem.List, Sub: a, Sep: ph})
+			out = append(out, &extsem.Expr{Kind: extsem.KList, Sub: a, Sep: ph, Plus: true},
+				&extsem.Expr{Kind: extsem.KList, Sub: a, Sep: ph})
 		}
 	}
 	if depth < s.maxDepth {
 		out = append(out, s.group(w, depth+1, allowRef, false)...)
 		for _, g := range s.group(w-1, depth+1, allowRef, true) {
-			out = append(out, &extsem.Expr{Kind: extsem.Opt, Sub: g},
-				&extsem.Expr{Kind: extsem.List, Sub: g, Plus: true},
-				&extsem.Expr{Kind: extsem.List, Sub: g})
+			out = append(out, &extsem.Expr{Kind: extsem.KOpt, Sub: g},
+				&extsem.Expr{Kind: extsem.KList, Sub: g, Plus: true},
+				&extsem.Expr{Kind: extsem.KList, Sub: g})
 		}
 		for _, g := range s.group(w-2, depth+1, allowRef, true) {
-			out = append(out, &extsem.Expr{Kind: extsem.List, Sub: g, Sep: ph, Plus: true},
-				&extsem.Expr{Kind: extsem.List, Sub: g, Sep: ph})
+			out = append(out, &extsem.Expr{Kind: extsem.KList, Sub: g, Sep: ph, Plus: true},
+				&extsem.Expr{Kind: extsem.KList, Sub: g, Sep: ph})
 		}
 	}
 	s.partMemo[key] = out
@@ -148,7 +148,7 @@ func (s *shapeGen) group(w, depth int, allowRef, bare bool) []*extsem.Expr {
 	var out []*extsem.Expr
 	for _, a := range s.alt(w, depth, allowRef, false) {
 		if a.Arrow != nil || (bare && len(a.Parts) >= 2) {
-			out = append(out, &extsem.Expr{Kind: extsem.Group, Alts: []*extsem.Alt{a}})
+			out = append(out, &extsem.Expr{Kind: extsem.KGroup, Alts: []*extsem.Alt{a}})
 		}
 	}
 	for w1 := 1; 2*w1+1 <= w; w1++ {
@@ -160,7 +160,7 @@ func (s *shapeGen) group(w, depth int, allowRef, bare bool) []*extsem.Expr {
 				if w1 == w2 && j <= i {
 					continue
 				}
-				out = append(out, &extsem.Expr{Kind: extsem.Group, Alts: []*extsem.Alt{a1, a2}})
+				out = append(out, &extsem.Expr{Kind: extsem.KGroup, Alts: []*extsem.Alt{a1, a2}})
 			}
 		}
 	}
@@ -205,7 +205,7 @@ func hasRef(alts []*extsem.Alt) bool {
 	found := false
 	var we func(e *extsem.Expr)
 	we = func(e *extsem.Expr) {
-		if e.Kind == extsem.Ref {
+		if e.Kind == extsem.KRef {
 			found = true
 		}
 		for _, a := range e.Alts {
@@ -225,6 +225,8 @@ func hasRef(alts []*extsem.Alt) bool {
 	return found
 }
 
+var droppedNullableList int
+
 // shapes enumerates every shape with weight <= W, ordered by weight then generation order.
 func shapes(W int) []*shape {
 	sS := &shapeGen{maxDepth: 2, maxParts: 3, partMemo: map[[3]int][]*extsem.Expr{}, seqMemo: map[[4]int][][]*extsem.Expr{}, altMemo: map[[4]int][]*extsem.Alt{}}
@@ -236,6 +238,7 @@ func shapes(W int) []*shape {
 	defsS := []def{{nil, 0}, {&extsem.Arrow{}, 1}, {&extsem.Arrow{Kind: extsem.CategoryArrow}, 2}}
 	defsY := []def{{nil, 0}, {&extsem.Arrow{}, 1}}
 	var out []*shape
+	droppedNullableList = 0
 	add := func(g *extsem.Grammar, w int) {
 		c := g.Clone()
 		nodeArrows := 0
@@ -245,6 +248,12 @@ func shapes(W int) []*shape {
 			}
 		}
 		if nodeArrows == 0 {
+			return
+		}
+		if c.NullableListElement() {
+			// a list whose element can be empty has infinitely many derivations for every
+			// sentence: never in the property's domain, whatever the terminals are
+			droppedNullableList++
 			return
 		}
 		out = append(out, &shape{g: c, weight: w})
@@ -329,7 +338,7 @@ func finishShape(sh *shape) {
 			}
 			allOpt := len(a.Parts) > 0
 			for _, p := range a.Parts {
-				if !(p.Kind == extsem.Opt || (p.Kind == extsem.List && !p.Plus)) {
+				if !(p.Kind == extsem.KOpt || (p.Kind == extsem.KList && !p.Plus)) {
 					allOpt = false
 				}
 			}
@@ -344,18 +353,18 @@ func finishShape(sh *shape) {
 	var we func(e *extsem.Expr, inArrow bool)
 	var wa func(a *extsem.Alt, inArrow bool)
 	emptySym := func(e *extsem.Expr) bool {
-		return (e.Kind == extsem.Ref && nullableNT[e.NT]) || (e.Kind == extsem.List && !e.Plus)
+		return (e.Kind == extsem.KRef && nullableNT[e.NT]) || (e.Kind == extsem.KList && !e.Plus)
 	}
 	we = func(e *extsem.Expr, inArrow bool) {
 		if inArrow {
 			switch e.Kind {
-			case extsem.Ref:
+			case extsem.KRef:
 				feats["around:ref"] = true
-			case extsem.Opt:
+			case extsem.KOpt:
 				feats["around:opt"] = true
-			case extsem.List:
+			case extsem.KList:
 				feats["around:list"] = true
-			case extsem.Group:
+			case extsem.KGroup:
 				if len(e.Alts) > 1 {
 					feats["around:choice"] = true
 				}
